@@ -243,6 +243,19 @@ def main(tier: str, seed: int) -> int:
     for i, u in enumerate(UNITS):
         imm_jobs.append(job("C17/immut", CONTEXT + "\n" + u, [], [config(t, "auto", "auto", NOORC) for t in cfgs],
                             checks=["immut"], meta={"unit": i}))
+    # family programs under their owning trait alone and under default (in-place edits of later stages show only when
+    # no earlier stage has copied the statement)
+    from vt.checks.C01 import slice_keep  # pylint: disable=import-outside-toplevel
+
+    def mk(j, c0):
+        fam = j["family"].split("/")[0]
+        return [config(compose.OWNER[fam], c0["inp"], [], NOORC), config(DEFAULT, c0["inp"], [], NOORC)]
+
+    keep = slice_keep(tier)
+    imm_fams = ["C08", "C12", "C13", "C15"] if quick else ["C08", "C09", "C10", "C11", "C12", "C13", "C14", "C15", "C16"]
+    imm_jobs += list(compose.remap(compose.family_jobs(imm_fams, tier),
+                                   "C17", mk, checks=("immut",),
+                                   keep=lambda j: keep(j) or j["family"].split("/")[0] in ("C12", "C13")))
     driver.run_pool(imm_jobs, seed, agg.add)
     for jb, cres, v in agg.violations:
         if v.get("kind") == "mutated_argument":
